@@ -414,6 +414,20 @@ def _run_indexerpars(desc):
             bad = [k_ for k_, v in d.items() if k_ not in got or type(got[k_]) != type(v) or got[k_] != v]
             if bad:
                 sh.violation("indexer.loadpars+savepars:value-type-or-name", dict(case, name=bad[0]), {"read": repr(got.get(bad[0])), "written": repr(d[bad[0]])})
+            elif bits & 4:
+                # history: parameters changed on the indexer object after loading (as every script does), then saved: the file holds what
+                # the indexer has now
+                f3 = os.path.join(wd, "out3.par")
+                with contextlib.redirect_stdout(io.StringIO()):
+                    ind.hkl_tol = 0.05
+                    ind.minpks = 33
+                    ind.savepars(f3)
+                got3 = P.read_par_file(f3).get_parameters()
+                want3 = dict(d, hkl_tol=0.05, minpks=33)
+                bad3 = [k_ for k_, v in want3.items() if k_ not in got3 or got3[k_] != v]
+                if bad3:
+                    sh.violation("indexer.savepars[after changing the indexer]:file-does-not-hold-the-current-value", dict(case, name=bad3[0]),
+                                 {"file": repr(got3.get(bad3[0])), "indexer": repr(want3[bad3[0]])})
             sh.evaluations += 1
             sh.nontrivial += 1
         sh.sample(case, limit=1)
@@ -630,7 +644,7 @@ def _run_sparse(desc):
         base = (np.arange(n).reshape(shp) * 37 + 11) % 251 + 5
         for x in range(1, 1 << n, 7):
             mask = np.array([(x >> k) & 1 for k in range(n)], bool).reshape(shp)
-            for variant in ("from_data_mask", "from_data_cut", "plain"):
+            for variant in ("from_data_mask", "from_data_cut", "plain", "unsorted"):
                 case = {"kind": "sparse", "mask": x, "variant": variant}
                 if variant == "from_data_mask":
                     fr = sf.from_data_mask(mask.astype(np.int8), base.astype(np.float32), {"threshold": 4.5, "filename": "a.edf"})
@@ -640,6 +654,9 @@ def _run_sparse(desc):
                     ii, jj = np.nonzero(mask)
                     fr = sf.sparse_frame(ii.astype(np.uint16), jj.astype(np.uint16), shp,
                                          pixels={"intensity": base[mask].astype(np.float32), "labels": np.arange(mask.sum(), dtype=np.int32)})
+                    if variant == "unsorted":
+                        # pixels in another order than row-major (a frame sorted by label, or built from a peak list)
+                        fr.reorder((np.arange(fr.nnz) * 5 + 3) % fr.nnz if fr.nnz % 5 else np.arange(fr.nnz)[::-1])
                 f = os.path.join(wd, "s.h5")
                 try:
                     with h5py.File(f, "w") as hf:
@@ -651,9 +668,16 @@ def _run_sparse(desc):
                     sh.violation("sparse-hdf:raises", case, {"error": "%s: %s" % (type(e).__name__, e)})
                     sh.evaluations += 1
                     continue
-                ok = (tuple(int(v) for v in back.shape) == tuple(fr.shape) and np.array_equal(back.row, fr.row) and np.array_equal(back.col, fr.col)
-                      and back.row.dtype == fr.row.dtype and set(back.pixels) == set(fr.pixels)
-                      and all(np.array_equal(back.pixels[k_], fr.pixels[k_]) and back.pixels[k_].dtype == fr.pixels[k_].dtype for k_ in fr.pixels))
+                if variant == "unsorted":
+                    # what must survive is which values sit on which pixel (the order on disk is the writer's business)
+                    def assoc(f_):
+                        return sorted(zip(f_.row.tolist(), f_.col.tolist(), *[np.asarray(f_.pixels[k_]).tolist() for k_ in sorted(f_.pixels)]))
+                    ok = (tuple(int(v) for v in back.shape) == tuple(fr.shape) and set(back.pixels) == set(fr.pixels) and back.nnz == fr.nnz
+                          and assoc(back) == assoc(fr))
+                else:
+                    ok = (tuple(int(v) for v in back.shape) == tuple(fr.shape) and np.array_equal(back.row, fr.row) and np.array_equal(back.col, fr.col)
+                          and back.row.dtype == fr.row.dtype and set(back.pixels) == set(fr.pixels)
+                          and all(np.array_equal(back.pixels[k_], fr.pixels[k_]) and back.pixels[k_].dtype == fr.pixels[k_].dtype for k_ in fr.pixels))
                 if not ok:
                     sh.violation("sparse-hdf:round-trip", case, {})
                 else:
